@@ -162,6 +162,11 @@ MUTANTS = [
     ("m123-sample-shared-stream-vmap", "firing", ["C19"], P, "GaussianPDF.sample",
      "        rand_nums = jax.random.normal(key, (num_samples, self.R, self.D))\n        L = jnp.linalg.cholesky(self.Sigma)\n        x_samples = self.mu[None] + jnp.einsum(\"abc,dac->dab\", L, rand_nums)\n",
      "        L = jnp.linalg.cholesky(self.Sigma)\n\n        def sample_component(mu, L):\n            rand_nums = jax.random.normal(key, (num_samples, self.D))\n            return mu[None] + jnp.einsum(\"bc,dc->db\", L, rand_nums)\n\n        x_samples = jax.vmap(sample_component, out_axes=1)(self.mu, L)\n"),
+    # ---------------- sorted / un-sorted index lists (from seeded change C06c)
+    ("m124-condition-explicit-sort-wrong-restore", "firing", ["C06"], P, "GaussianPDF.condition_on_explicit",
+     "        Lambda_x = self.Lambda[:, dim_x][:, :, dim_x]\n        Sigma_x, ln_det_Lambda_x = invert_matrix(Lambda_x)\n        M_x = -jnp.einsum(\"abc,acd->abd\", Sigma_x, self.Lambda[:, dim_x][:, :, dim_y])\n        b_x = self.mu[:, dim_x] - jnp.einsum(\"abc,ac->ab\", M_x, self.mu[:, dim_y])\n        return conditional.ConditionalGaussianPDF(\n            M=M_x, b=b_x, Sigma=Sigma_x, Lambda=Lambda_x, ln_det_Sigma=-ln_det_Lambda_x\n        )\n        \n    def get_density_of_linear_sum", "        order = jnp.argsort(dim_x)\n        inv = jnp.argsort(order)\n        dim_x = dim_x[order]\n        Lambda_x = self.Lambda[:, dim_x][:, :, dim_x]\n        Sigma_x, ln_det_Lambda_x = invert_matrix(Lambda_x)\n        M_x = -jnp.einsum(\"abc,acd->abd\", Sigma_x, self.Lambda[:, dim_x][:, :, dim_y])\n        b_x = self.mu[:, dim_x] - jnp.einsum(\"abc,ac->ab\", M_x, self.mu[:, dim_y])\n        return conditional.ConditionalGaussianPDF(\n            M=M_x[:, order], b=b_x[:, order], Sigma=Sigma_x[:, order][:, :, order], Lambda=Lambda_x[:, order][:, :, order], ln_det_Sigma=-ln_det_Lambda_x\n        )\n        \n    def get_density_of_linear_sum"),
+    ("m125-condition-explicit-sort-inverse-restore", "silent", ["C06", "C04", "C12"], P, "",
+     "        Lambda_x = self.Lambda[:, dim_x][:, :, dim_x]\n        Sigma_x, ln_det_Lambda_x = invert_matrix(Lambda_x)\n        M_x = -jnp.einsum(\"abc,acd->abd\", Sigma_x, self.Lambda[:, dim_x][:, :, dim_y])\n        b_x = self.mu[:, dim_x] - jnp.einsum(\"abc,ac->ab\", M_x, self.mu[:, dim_y])\n        return conditional.ConditionalGaussianPDF(\n            M=M_x, b=b_x, Sigma=Sigma_x, Lambda=Lambda_x, ln_det_Sigma=-ln_det_Lambda_x\n        )\n        \n    def get_density_of_linear_sum", "        order = jnp.argsort(dim_x)\n        inv = jnp.argsort(order)\n        dim_x = dim_x[order]\n        Lambda_x = self.Lambda[:, dim_x][:, :, dim_x]\n        Sigma_x, ln_det_Lambda_x = invert_matrix(Lambda_x)\n        M_x = -jnp.einsum(\"abc,acd->abd\", Sigma_x, self.Lambda[:, dim_x][:, :, dim_y])\n        b_x = self.mu[:, dim_x] - jnp.einsum(\"abc,ac->ab\", M_x, self.mu[:, dim_y])\n        return conditional.ConditionalGaussianPDF(\n            M=M_x[:, inv], b=b_x[:, inv], Sigma=Sigma_x[:, inv][:, :, inv], Lambda=Lambda_x[:, inv][:, :, inv], ln_det_Sigma=-ln_det_Lambda_x\n        )\n        \n    def get_density_of_linear_sum"),
     # ---------------- C20
     ("m130-indicator-one-sided", "firing", ["C20"], T, "TruncatedGaussianMeasure.__call__",
      "                jnp.logical_and(\n                    jnp.greater_equal(x[None], self.lower_limit[:, None]),\n                    jnp.less_equal(x[None], self.upper_limit[:, None]),\n                ),", "                jnp.logical_and(\n                    jnp.greater_equal(x[None], self.lower_limit[:, None]),\n                    jnp.greater_equal(x[None], self.lower_limit[:, None]),\n                ),"),
